@@ -496,6 +496,8 @@ cdef class StochasticOpenSystem(_StochasticSystem):
 
     cdef void _compute_L0a(self) except *:
         # L0a = a'a + da/dt + bba"/2  (a" = 0)
+        if not self._a_set:
+            self._compute_a()
         imul_dense(self._L0a, 0.)
         if not self.L.isconstant:
             self.L.matmul_data(self.t + self.dt, self.state, self._L0a)
